@@ -26,6 +26,10 @@ pub struct Case {
     pub refused: u32,
     /// request made afterwards (same coding)
     pub then: u8,
+    /// locally refused publishes made before anything else, so that the in-flight requests get
+    /// identifiers next to the 16-bit wrap
+    #[serde(default)]
+    pub pre_age: u32,
 }
 
 fn fingerprint(s: &minimq::Session<'_>) -> u128 {
@@ -46,11 +50,14 @@ fn cases(tier: Tier) -> Vec<Case> {
         }
         for refused in counts {
             for then in 1..=4u8 {
-                v.push(Case {
-                    inflight: inflight.clone(),
-                    refused,
-                    then,
-                });
+                for pre_age in [0u32, 65532, 65534] {
+                    v.push(Case {
+                        inflight: inflight.clone(),
+                        refused,
+                        then,
+                        pre_age,
+                    });
+                }
             }
         }
     }
@@ -99,6 +106,12 @@ fn history(c: &Case, hook_target: Option<u16>) -> (u128, Vec<(String, u16)>, Res
         let Conn::Ok(mut conn, id) = connect(bench, s, &ca) else {
             panic!("machinery: plain connect failed");
         };
+        for _ in 0..c.pre_age {
+            match bench.run(conn.publish(Publication::bytes("t", &big[..]).qos(QoS::AtLeastOnce)), id) {
+                Some(Err(e)) if matches!(Res::from_pub(&e), Res::BufferTooSmall | Res::Payload) => {}
+                _ => panic!("machinery: pre-ageing publish was not refused"),
+            }
+        }
         for (i, k) in c.inflight.iter().enumerate() {
             let before = conn.session().verif_runtime().next_packet_id;
             request(bench, &mut conn, id, *k, i as u8).expect("machinery: setup request failed");
@@ -129,9 +142,11 @@ fn history(c: &Case, hook_target: Option<u16>) -> (u128, Vec<(String, u16)>, Res
         let counter = conn.session().verif_runtime().next_packet_id;
         let fp = fingerprint(conn.session());
         let last = request(bench, &mut conn, id, c.then, 0x55);
-        let ids: Vec<(String, u16)> = bench
-            .packets(id)
-            .unwrap_or_default()
+        let decoded = match bench.packets(id) {
+            Ok(p) => p,
+            Err(e) => return (fp, vec![("UNDECODABLE:".to_string() + &e, 0)], last, counter),
+        };
+        let ids: Vec<(String, u16)> = decoded
             .iter()
             .filter_map(|(p, _)| match p {
                 CPacket::Publish(pp) if pp.qos > 0 => Some(("PUBLISH".to_string(), pp.pid.unwrap())),
@@ -162,7 +177,8 @@ pub fn eval(c: &Case) -> CaseOut {
         // nothing was acknowledged, so every identifier on the wire is still in flight: all distinct, none zero
         for (i, (k, id)) in ids.iter().enumerate() {
             if *id == 0 {
-                viol.push(("C07:id-zero:".to_string() + k, format!("{} carries identifier 0", k)));
+                let kind = if k.starts_with("UNDECODABLE") { "undecodable-packet" } else { k.as_str() };
+                viol.push(("C07:id-zero:".to_string() + kind, format!("{} carries identifier 0 ({:?})", k, c)));
             }
             if let Some((k0, _)) = ids[..i].iter().find(|(_, other)| other == id) {
                 viol.push((
